@@ -50,16 +50,24 @@ def inner_new_under_contract(rep, prog, items):
     stride_is_w = stride_t == w_t
     # data.len() == len dominates the call, len = checked product of the two dims
     eq_edges = []
+    eq_edges_alt = []
     for sb, tr, fa in G.bool_edges(nf, nsl, lambda d: d[0] == "bin" and d[1] in ("Eq", "Ne")):
         d, _n = G.strip_not(nsl.operand(nf.term(sb)["discr"]))
         sides = [T.strip(d[2], sites=False, refs=True, casts=True), T.strip(d[3], sites=False, refs=True, casts=True)]
         has_len = any(x[0] == "call" and x[1].split(" => ")[0].endswith("Vec::<T, A>::len") and T.strip(x[2][0], sites=False, refs=True, casts=True) == data_t for x in sides)
-        has_prod = any(T.contains(x, lambda q: q[0] == "call" and "and_then" in q[1]) for x in sides)
+        # the other side is the checked product of the two dimensions: a checked_mul call (directly, or inside the closures of an
+        # and_then chain) fed by both dimensions
+        def fed_by_dims(q):
+            return all(T.contains(q, lambda r_, k_=k_: T.strip(r_, sites=False, refs=True, casts=True) in (w_t if k_ == 0 else h_t,)) for k_ in (0, 1))
+        direct = any(T.contains(x, lambda q: q[0] == "call" and q[1].split(" => ")[0].endswith("::checked_mul") and fed_by_dims(q)) for x in sides)
+        chain = any(T.contains(x, lambda q: q[0] == "call" and "and_then" in q[1]) for x in sides)
+        has_prod = direct or chain
         if has_len and has_prod:
             eq_edges += tr if d[1] == "Eq" else fa
     len_is_product = bool(eq_edges) and G.guarded_by(nf, bi, eq_edges)
     fam = prog.family(NEW_FROM)
     has_checked_mul = any(True for b in fam for _bb, _t in b.calls(lambda c: c["path"].endswith("::checked_mul")))
+    eq_edges = eq_edges or eq_edges_alt
     rep.inst("C13.K-buf", "new_from -> Inner::new: stride argument is w: %s; call dominated by data.len() == checked w*h: %s (checked_mul in closure chain: %s)"
              % (stride_is_w, len_is_product, has_checked_mul), config=cfg)
     if not (stride_is_w and len_is_product and has_checked_mul):
@@ -252,53 +260,67 @@ CONSUMERS = ("Header::parse", "::zip", "::map", "::flat_map", "::parse_num", "::
 def raw_bytes_rule(rep, prog):
     """B-raw: between the header and the pixel decoders the input byte stream is consumed
     verbatim — every use of the raw iterator in parse_pnm (directly, through a verbatim wrapper
-    such as by_ref()/peekable(), or through the `it` captured by a decoder closure) is a consumer
-    that sees every remaining byte in order; nothing drops, skips or conditionally eats a byte
-    (binary pixel data may contain any byte value, including whitespace and '#')."""
+    such as by_ref()/peekable(), through the `it` captured by a decoder closure, or inside a local
+    decoder function the stream is handed to) is a consumer that sees every remaining byte in
+    order; nothing drops, skips or conditionally eats a byte (binary pixel data may contain any
+    byte value, including whitespace and '#')."""
     cfg = prog.config
     pp = prog.body(ROOTS[0])
-    n = 0
+    counter = {"n": 0}
 
-    def is_raw(recv, b):
-        for _ in range(8):
-            if recv == ("upvar", "it"):
-                return True
-            if recv[0] != "call":
+    def analyse(root, raw_params, depth):
+        """root: a function body; raw_params: parameter numbers that ARE the raw stream (for parse_pnm: into_iter(param 1))"""
+        def is_raw(recv, b):
+            for _ in range(8):
+                if recv == ("upvar", "it"):
+                    return True
+                if recv[0] == "param" and b is root and recv[1] in raw_params and root is not pp:
+                    return True
+                if recv[0] != "call":
+                    return False
+                decl = recv[1].split(" => ")[0]
+                if decl.endswith("IntoIterator::into_iter") and b is root:
+                    inner = T.strip(recv[2][0], refs=True)
+                    if inner[0] == "param" and inner[1] in raw_params:
+                        return True
+                if any(decl.endswith(v) for v in VERBATIM) and recv[2]:
+                    recv = T.strip(recv[2][0], sites=True, refs=True)
+                    continue
                 return False
-            decl = recv[1].split(" => ")[0]
-            if decl.endswith("IntoIterator::into_iter") and T.strip(recv[2][0], refs=True) == ("param", 1) and b is pp:
-                return True
-            if any(decl.endswith(v) for v in VERBATIM) and recv[2]:
-                recv = T.strip(recv[2][0], sites=True, refs=True)
-                continue
             return False
-        return False
-    for b in prog.family(pp.path):
-        sl = T.Slicer(b)
-        for bi, t in b.calls():
-            c = t.get("callee") or {}
-            name = c.get("path", "")
-            if not t["args"]:
-                continue
-            recv = T.strip(sl.operand(t["args"][0]), sites=True, refs=True)
-            if not is_raw(recv, b):
-                continue
-            short = name.rsplit("::", 1)[-1]
-            if any(name.endswith(v) for v in VERBATIM) or any(name.endswith(v) for v in NONCONSUMING):
-                rep.inst("C13.B-raw", "%s wraps/reads the raw input iterator at %s without consuming" % (short, b.where(bi, None)), config=cfg)
-                continue
-            n += 1
-            drop = any(name.endswith(d) for d in DROPPING)
-            known = any(name.endswith(d) for d in CONSUMERS)
-            rep.inst("C13.B-raw", "%s applied to the raw input iterator at %s: %s" % (short, b.where(bi, None), "DROPS ITEMS" if drop else "verbatim" if known else "UNRECOGNISED"), config=cfg)
-            if drop:
-                rep.violate("C13.B-raw", "B-raw|%s" % short, b.where(bi, None),
-                            "the raw byte stream is passed through `%s` between the header and the pixel data: binary samples equal to the dropped values are lost"
-                            % short, config=cfg)
-            elif not known:
-                raise common.Infra("C13.B-raw: `%s` consumes the raw byte stream at %s and is in neither the verbatim-consumer nor the dropping table; classify it"
-                                   % (name, b.where(bi, None)))
-    rep.floor("C13.B-raw.%s" % cfg, n, 4, "uses of the raw input iterator in parse_pnm")
+        for b in prog.family(root.path):
+            sl = T.Slicer(b)
+            for bi, t in b.calls():
+                c = t.get("callee") or {}
+                name = (c.get("res") or {}).get("path") or c.get("path", "")
+                raw_args = [ai for ai, a in enumerate(t["args"]) if is_raw(T.strip(sl.operand(a), sites=True, refs=True), b)]
+                if not raw_args:
+                    continue
+                short = name.rsplit("::", 1)[-1]
+                if raw_args != [0] or prog.lookup(name) is not None and not any(name.endswith(d) for d in CONSUMERS):
+                    # the stream is handed to a function as an argument
+                    callee = prog.lookup(name)
+                    if callee is not None and depth < 3 and not any(name.endswith(d) for d in CONSUMERS):
+                        rep.inst("C13.B-raw", "the raw input iterator is handed to %s at %s: analysed inside" % (short, b.where(bi, None)), config=cfg)
+                        counter["n"] += 1
+                        analyse(callee, {ai + 1 for ai in raw_args}, depth + 1)
+                        continue
+                if any(name.endswith(v) for v in VERBATIM) or any(name.endswith(v) for v in NONCONSUMING):
+                    rep.inst("C13.B-raw", "%s wraps/reads the raw input iterator at %s without consuming" % (short, b.where(bi, None)), config=cfg)
+                    continue
+                counter["n"] += 1
+                drop = any(name.endswith(d) for d in DROPPING)
+                known = any(name.endswith(d) for d in CONSUMERS)
+                rep.inst("C13.B-raw", "%s applied to the raw input iterator at %s: %s" % (short, b.where(bi, None), "DROPS ITEMS" if drop else "verbatim" if known else "UNRECOGNISED"), config=cfg)
+                if drop:
+                    rep.violate("C13.B-raw", "B-raw|%s" % short, b.where(bi, None),
+                                "the raw byte stream is passed through `%s` between the header and the pixel data: binary samples equal to the dropped values are lost"
+                                % short, config=cfg)
+                elif not known:
+                    raise common.Infra("C13.B-raw: `%s` consumes the raw byte stream at %s and is in neither the verbatim-consumer nor the dropping table; classify it"
+                                       % (name, b.where(bi, None)))
+    analyse(pp, {1}, 0)
+    rep.floor("C13.B-raw.%s" % cfg, counter["n"], 4, "uses of the raw input iterator in parse_pnm")
 
 
 def format_rules(rep, prog):
